@@ -151,7 +151,7 @@ def cond_pv(v, attr):
 def _walk_vis(d, out):
     def cls(c):
         out.append((c.get("vis"), c["attr"], "class"))
-        for t in c["tests"]:
+        for t in c["tests"] + inherited_tests(c):
             out.append((t.get("vis"), t["attr"], "test"))
         for x in c["subs"]:
             cls(x)
@@ -335,7 +335,87 @@ def gen_cls(rng, attr, depth, uniq, dunder=True):
         else:
             c["subs"].append(gen_cls(rng, "__Nested__", depth + 1, uniq, dunder=False))
     _assign_pos(rng, c["tests"], c["subs"])
+    if rng.random() < 0.3:
+        c["bases"], c["own_props"] = gen_bases(rng, c)
+        if rng.random() < 0.4:
+            gen_inherited(rng, c, uniq)
     return c
+
+
+# ---------------------------------------------------------------------------------------------
+# what a suite class INHERITS and what it holds besides its members (fifth seeded round): helper base classes and mixins
+# (plain classes, not suites) contributing PROPERTIES — evaluated at run time only: they read an injected fixture, state built
+# in setup_suite, another test of the suite … —, plain class attributes and helper methods.  They declare nothing: the
+# discovery of the class's tests and nested suites must neither list nor evaluate them.
+# ---------------------------------------------------------------------------------------------
+PROP_NAMES = ["session", "entry_point", "client", "first_case", "inner", "zz_prop", "aa_prop", "Base_url"]
+GETTERS = ["raise-attr", "raise-attr", "raise-runtime", "returns-test", "returns-suite", "value", "fixture"]
+
+
+def gen_prop(rng, c, names):
+    name = rng.choice([n for n in PROP_NAMES if n not in names] or ["extra_%d" % len(names)])
+    names.append(name)
+    g = rng.choice(GETTERS)
+    p = {"name": name, "getter": g}
+    if g == "returns-test":
+        cands = [t["attr"] for t in c["tests"] if not t["attr"].startswith("__")]
+        if cands:
+            p["target"] = rng.choice(cands)
+        else:
+            p["getter"] = "raise-attr"
+    if g == "returns-suite":
+        cands = [x["attr"] for x in c["subs"] if not x["attr"].startswith("__")]
+        if cands:
+            p["target"] = rng.choice(cands)
+        else:
+            p["getter"] = "raise-runtime"
+    return p
+
+
+def gen_bases(rng, c):
+    """-> (bases, own_props); bases: list of {"props": [...], "attrs": [...], "up": [same, the bases of this base]} in the order
+    of the class statement (`class K(Base0, Mixin1)`)"""
+    names = []
+
+    def base(depth):
+        b = {"props": [gen_prop(rng, c, names) for _ in range(rng.choice([1, 1, 2]))],
+             "attrs": rng.sample(["TIMEOUT", "helper_const", "api"], rng.choice([0, 1])), "up": []}
+        if depth < 2 and rng.random() < 0.3:
+            b["up"] = [base(depth + 1)]
+        return b
+    bases = [base(1) for _ in range(rng.choice([1, 1, 2]))]
+    own = [gen_prop(rng, c, names) for _ in range(rng.choice([0, 0, 1]))]
+    return bases, own
+
+
+INH_ATTRS = ["inh_check", "base_smoke", "zz_inherited", "aa_inherited"]
+
+
+def gen_inherited(rng, c, uniq):
+    """test methods the suite class INHERITS from its first base class (a plain class): they are members of the suite like its
+    own, declared (= decorated) before the class body"""
+    b = c["bases"][rng.randrange(len(c["bases"]))]
+    b["tests"] = [gen_test(rng, a, uniq) for a in rng.sample(INH_ATTRS, rng.choice([1, 1, 2]))]
+    for i, t in enumerate(b["tests"]):
+        t["pos"] = i
+
+
+def inherited_tests(c):
+    return [t for b in c.get("bases") or [] for t in b.get("tests") or []]
+
+
+def mro_of(c):
+    """the class dicts that hold properties / plain attributes, in MRO order (the class itself first; C3 linearisation of the
+    generated shapes: every base is a chain of its own, so the MRO is depth-first, left to right): list of (depth-label, props, attrs)"""
+    out = [("own", list(c.get("own_props") or []), ["some_attribute", "helper"])]
+
+    def walk(b, label):
+        out.append((label, list(b["props"]), list(b["attrs"]) + ["=" + t["attr"] for t in b.get("tests") or []]))
+        for i, u in enumerate(b["up"]):
+            walk(u, label + ".up%d" % i)
+    for i, b in enumerate(c.get("bases") or []):
+        walk(b, "base%d" % i)
+    return out
 
 
 def _assign_pos(rng, tests, classes):
@@ -701,6 +781,9 @@ def with_ranks(layout, entry="dir", pick=None):
                 cls(it)
 
     def cls(c):
+        # the base classes stand in front of the class statement: their decorated methods are numbered first
+        for b in c.get("bases") or []:
+            body(b.get("tests") or [], [])
         body(c["tests"], c["subs"])
         c["rank"] = nxt() if c.get("xrank") is None else c["xrank"]
 
@@ -726,7 +809,7 @@ def with_ranks(layout, entry="dir", pick=None):
 
             def z(c):
                 c.setdefault("rank", 0)
-                for t in c["tests"]:
+                for t in c["tests"] + inherited_tests(c):
                     t.setdefault("rank", 0)
                 for s in c["subs"]:
                     z(s)
@@ -931,10 +1014,18 @@ def _cls_src(c, ind):
     if v:
         decos.append(v)
     decos.insert(bits % (len(decos) + 1), first)
-    lines = [ind + d for d in reversed(decos)]
-    lines.append(ind + "class %s:" % c["attr"])
+    lines = []
+    base_names = []
+    for i, b in enumerate(c.get("bases") or []):
+        bn = "_Base_%s_%d" % (c["attr"].strip("_"), i)
+        lines += _base_src(b, bn, ind)
+        base_names.append(bn)
+    lines += [ind + d for d in reversed(decos)]
+    lines.append(ind + "class %s%s:" % (c["attr"], "(%s)" % ", ".join(base_names) if base_names else ""))
     inner = ind + "    "
     lines.append(inner + "some_attribute = 42")
+    for pr in c.get("own_props") or []:
+        lines += _prop_src(pr, inner)
     lines += [inner + d for d in cond_defs(c.get("vis"), "", c["attr"])]
     if c.get("ctor_fails"):
         lines.append(inner + "def __init__(self):")
@@ -942,6 +1033,37 @@ def _cls_src(c, ind):
     lines.append(inner + "def helper(self):")
     lines.append(inner + "    return 1")
     lines += _body_src(c["tests"], c["subs"], inner, True)
+    return lines
+
+
+def _prop_src(pr, ind):
+    """a property whose getter only works at run time (or hands out a member of the suite)"""
+    g = pr["getter"]
+    body = {"raise-attr": "return self._injected_later.%s" % pr["name"],
+            "raise-runtime": "raise RuntimeError('%s is only available while the suite runs')" % pr["name"],
+            "returns-test": "return getattr(self, %r)" % pr.get("target"),
+            "returns-suite": "return getattr(type(self), %r)" % pr.get("target"),
+            "fixture": "return self.api.session",
+            "value": "return 42"}[g]
+    return [ind + "@property", ind + "def %s(self):" % pr["name"], ind + "    " + body]
+
+
+def _base_src(b, name, ind):
+    lines, ups = [], []
+    for i, u in enumerate(b["up"]):
+        un = "%s_up%d" % (name, i)
+        lines += _base_src(u, un, ind)
+        ups.append(un)
+    lines.append(ind + "class %s(%s):" % (name, ", ".join(ups) or "object"))
+    inner = ind + "    "
+    for a in b["attrs"]:
+        lines.append(inner + ("%s = lcc.inject_fixture('fixt_%s')" % (a, a) if a == "api" else "%s = 30" % a))
+    for pr in b["props"]:
+        lines += _prop_src(pr, inner)
+    lines += _body_src(b.get("tests") or [], [], inner, True)
+    if not b["attrs"] and not b["props"] and not b.get("tests"):
+        lines.append(inner + "pass")
+    lines.append("")
     return lines
 
 
